@@ -56,7 +56,16 @@ func c20UserCN(i int) string {
 	return fmt.Sprintf("u%c", 'a'+i)
 }
 func c20UserDN(i int) string  { return fmt.Sprintf("cn=%s,%s", c20UserCN(i), c20People) }
-func c20GroupDN(i int) string { return fmt.Sprintf("cn=g%c,%s", 'a'+i, c20Groups) }
+// c20NGroups: four groups below the groups base and one that SetGroups puts elsewhere in the tree (what list an entry
+// is in is decided by the Set* call, not by its DN)
+const c20NGroups = 5
+
+func c20GroupDN(i int) string {
+	if i == 4 {
+		return "cn=ge,ou=roles,dc=example,dc=org"
+	}
+	return fmt.Sprintf("cn=g%c,%s", 'a'+i, c20Groups)
+}
 
 var c20AttrNames = []string{"mail", "description", "sn", "telephoneNumber", "title", "memberOf", "email"}
 
@@ -204,7 +213,7 @@ func c20History(c *Ctx, td interface {
 				model.Users[c20UserDN(i)] = e
 			}
 		}
-		for i := 0; i < 4; i++ {
+		for i := 0; i < c20NGroups; i++ {
 			if r.Chance(50) {
 				model.Groups[c20GroupDN(i)] = &c20Entry{Attrs: map[string][]string{"member": {c20UserDN(r.Intn(c20NUsers))}}}
 			}
@@ -242,11 +251,12 @@ func c20History(c *Ctx, td interface {
 	verify := func(k *c20Client, dn string) bool {
 		cn := dn[:strings.IndexByte(dn, ',')]
 		addedBelowGroups := strings.HasSuffix(dn, c20Groups) && strings.HasPrefix(cn, "cn=h")
-		isGroup := strings.HasSuffix(dn, c20Groups) && !addedBelowGroups
+		outOfBase := strings.HasPrefix(cn, "cn=g") && !strings.HasSuffix(dn, c20Groups)
+		isGroup := strings.HasPrefix(cn, "cn=g") && !addedBelowGroups
 		var op *sber.Node
 		mode := "people-filter"
 		switch {
-		case addedBelowGroups || isGroup && r.Chance(35):
+		case addedBelowGroups || outOfBase || isGroup && r.Chance(35):
 			// read the entry by its own DN (the filter names its RDN, which is what this directory matches on)
 			mode = "base-is-entry-dn-below-groups"
 			op = sber.Search{Base: []byte(dn), Scope: 0, Filter: sber.EqFilter("cn", cn[3:]), Attrs: [][]byte{}}.Node()
@@ -296,6 +306,9 @@ func c20History(c *Ctx, td interface {
 		case me != nil:
 			got := map[string][]string{}
 			for _, a := range found.Attrs {
+				if _, dup := got[string(a.Type)]; dup {
+					fail("a search does not reflect the entry's attributes", fmt.Sprintf("%s: attribute %q is returned twice in one entry (the model has it once)", dn, a.Type))
+				}
 				got[string(a.Type)] = append(got[string(a.Type)], bytesToStrs(a.Vals)...)
 			}
 			for name, vals := range me.Attrs {
@@ -432,7 +445,7 @@ func c20History(c *Ctx, td interface {
 			var dn string
 			isGroup := r.Chance(30)
 			if isGroup {
-				dn = c20GroupDN(r.Intn(4))
+				dn = c20GroupDN(r.Intn(c20NGroups))
 			} else if r.Chance(20) {
 				dn = c20HDN(r.Intn(4))
 			} else {
@@ -462,7 +475,7 @@ func c20History(c *Ctx, td interface {
 			mutated = true
 			other := c20UserDN(r.Intn(c20NUsers))
 			if isGroup {
-				other = c20GroupDN(r.Intn(4))
+				other = c20GroupDN(r.Intn(c20NGroups))
 			}
 			if !verify(k, dn) || !verify(k, other) {
 				return false
@@ -481,7 +494,7 @@ func c20History(c *Ctx, td interface {
 					fail("search got no well-formed answer", err.Error())
 					return false
 				}
-				if !verify(k, c20UserDN(r.Intn(c20NUsers))) || !verify(k, c20GroupDN(r.Intn(4))) {
+				if !verify(k, c20UserDN(r.Intn(c20NUsers))) || !verify(k, c20GroupDN(r.Intn(c20NGroups))) {
 					return false
 				}
 				continue
@@ -490,7 +503,7 @@ func c20History(c *Ctx, td interface {
 			kinds = append(kinds, "S")
 			dn := c20UserDN(r.Intn(c20NUsers))
 			if r.Chance(25) {
-				dn = c20GroupDN(r.Intn(4))
+				dn = c20GroupDN(r.Intn(c20NGroups))
 			}
 			if !verify(k, dn) {
 				return false
@@ -510,8 +523,8 @@ func c20History(c *Ctx, td interface {
 			return false
 		}
 	}
-	for i := 0; i < 4; i++ {
-		if !verify(k, c20GroupDN(i)) || !verify(k, c20HDN(i)) {
+	for i := 0; i < c20NGroups; i++ {
+		if !verify(k, c20GroupDN(i)) || (i < 4 && !verify(k, c20HDN(i))) {
 			return false
 		}
 	}
